@@ -433,6 +433,51 @@ def rule_f_generic_coordinates_from_one_line(ctx, fns):
     return n
 
 
+def rule_g_swapped_flag_records_the_exchange(ctx, fns):
+    """get_sino_coords brings (phi, beta) of a LOR into their standard ranges; in some branches that means exchanging the end points
+    (z1 <- p2.z, z2 <- p1.z).  The `swapped` flag is what keeps the direction of the LOR (the sign of the TOF bin, and the order of the
+    end points when converting back): in every branch it must be true exactly when z1 is taken from the second point (F77)."""
+    RULE = "C12.g-swapped-flag-records-the-exchange"
+    n = 0
+    seen = set()
+    for f in sorted(fns, key=lambda g: bool(g.is_dependent)):
+        if f.short != "get_sino_coords" or f.body is None or (f.file, f.body.line) in seen or len(f.params) < 6:
+            continue
+        seen.add((f.file, f.body.line))
+        z1, z2, sw, cyl = f.params[0]["d"], f.params[1]["d"], f.params[4]["d"], f.params[5]["d"]
+        k_ = 0
+        for blk in f.walk():
+            if blk.k != "CompoundStmt":
+                continue
+            asg = {}
+            for st in blk.c:
+                st_ = st.strip()
+                if st_.k in ("BinaryOperator", "CXXOperatorCallExpr") and st_.op == "=" and len(st_.c) >= 2 and st_.c[0].strip().k == "DeclRefExpr":
+                    asg[st_.c[0].strip().get("d")] = st_.c[1].strip()
+            if sw not in asg:
+                continue
+            if z1 not in asg or z2 not in asg:
+                ctx.unrec(f.qn, "C12.g: branch at line %d sets the flag without assigning z1 and z2 next to it" % blk.line)
+                continue
+            k1, k2 = key(asg[z1], True), key(asg[z2], True)
+            if "p1()" in k1 and "p2()" in k2:
+                exchanged = False
+            elif "p2()" in k1 and "p1()" in k2:
+                exchanged = True
+            else:
+                ctx.unrec(f.qn, "C12.g: z1/z2 of the branch at line %d are not taken from p1()/p2()" % blk.line)
+                continue
+            flag = key(asg[sw])
+            if flag not in ("true", "false"):
+                ctx.unrec(f.qn, "C12.g: flag of the branch at line %d is not a literal" % blk.line)
+                continue
+            ok = (flag == "true") == exchanged
+            ctx.ob(RULE, f.qn.split("<")[0], "branch#%d" % k_, ok, blk.where(), "end points %s, swapped = %s" % ("exchanged" if exchanged else "kept", flag) if ok else "this branch %s the end points (z1 = %s) but sets swapped = %s: converting the sinogram coordinates back returns the end points in the other order, and the TOF bin gets the other sign" % ("exchanges" if exchanged else "keeps", k1[:40], flag))
+            k_ += 1
+            n += 1
+    return n
+
+
 def run(ctx):
     ctx.explanation = (
         "Decides structural clauses only: (a) in every get_bin(LOR) implementation (arc-corrected, non-arc-corrected cylindrical, generic, "
@@ -466,6 +511,10 @@ def run(ctx):
     ctx.require_count("C12.e-obliqueness-over-transaxial-chord", 2)
     rule_d_mashed_view_centred(ctx, us[-2].functions)
     rule_f_generic_coordinates_from_one_line(ctx, us[-1].functions)
+    gu = ctx.ex.get(Request(B + "ProjDataInfoCylindricalNoArcCorr.cxx", fn=["stir::get_sino_coords"], files=["/repo/src/include/stir/LORCoordinates\\.inl"]))
+    if gu is not None:
+        rule_g_swapped_flag_records_the_exchange(ctx, gu.functions)
+        ctx.require_count("C12.g-swapped-flag-records-the-exchange", 6)
     ctx.require_count("C12.f-generic-coordinates-from-one-line", 4)
     ctx.require_count("C12.d-mashed-view-centred", 1)
     ctx.require_count("C12.a-range-test-after-last-modification", 9)
